@@ -1,9 +1,9 @@
-\* thorough: two readers, one writer, 2 keys and a nested bucket
+\* (simulation) explicit cursors of the writer and of a reader over keys spread over the durable store, the cache and the pending keys; Seek included
 INIT Init
 NEXT Next
 CONSTANTS
-  KeyOrder <- K2
-  ValSet <- V2
+  KeyOrder <- K3
+  ValSet <- V1
   NameOrder <- N1
   MaxDepth = 1
   BlockOrder <- B0
@@ -12,17 +12,17 @@ CONSTANTS
   PruneTarget = 186
   MaxTx = 2
   MaxOps = 2
-  Readers <- R2
-  MaxReads = 2
+  Readers <- R1
+  MaxReads = 1
   MaxFaults = 0
   CrashMode = "none"
   PowerLoss = FALSE
   MaxCrash = 0
   FlushModes <- FlushBoth
   AllowRestart = FALSE
-  MaxCur = 0
-  PutPaths <- AllPaths
-  CurSeeks = FALSE
-  BucketOps = TRUE
-  PreBuckets <- NoPaths
+  MaxCur = 5
+  PutPaths <- Nested
+  CurSeeks = TRUE
+  BucketOps = FALSE
+  PreBuckets <- PreA
 INVARIANTS TypeOK Disjoint Atomicity Isolation PrefixDurability ReopenOK
